@@ -230,7 +230,6 @@ fn eval(c: &Case, rep: &mut Report) {
 
     let be = write_db(c);
     let before = be.image();
-    let before_dump = dump(&before);
 
     let first = guard(|| open_and_read(&be));
     let first = match first {
@@ -248,6 +247,7 @@ fn eval(c: &Case, rep: &mut Report) {
             Err((kind, _)) if kind == "OpenFailed" => {
                 let after = be.image();
                 let identical = after == before;
+                let before_dump = dump(&before);
                 let after_dump = dump(&after);
                 let class = if identical { "refused:byte-identical" } else { "refused:bytes-differ-content-identical" };
                 rep.case(key, &format!("{vname}:{class}"), nontrivial);
@@ -319,7 +319,7 @@ fn eval(c: &Case, rep: &mut Report) {
             rep.case(key, &format!("{vname}:{}", if bad { "opened-wrong" } else { "opened-preserved" }), nontrivial);
             if rep.wants_sample() && c.stored % 23 == 5 && c.sampled % 7 == 3 {
                 rep.sample(|| json!({"case": case, "written_stored": want_stored, "written_sampled": want_sampled,
-                                    "tables_before": before_dump.clone().unwrap_or_default(), "tables_after": after_dump}));
+                                    "tables_before": dump(&before).unwrap_or_default(), "tables_after": after_dump}));
             }
         }
     }
